@@ -438,6 +438,12 @@ def run_policy(ctx):
     docs = []
     for _ in range(n_valid):
         docs.append(("valid", gen_policy(rng)))
+    # every shape of principal around the anonymous one: the bare star, a map naming the star under one key (single value, one-element list,
+    # two elements), under two keys, under another spelling of the key - each is a value of its own and survives the round trip
+    for pr in ("*", {"AWS": "*"}, {"AWS": ["*"]}, {"AWS": ["*", "*"]}, {"Service": "*"}, {"AWS": "*", "Service": "s"}, {"aws": "*"}, {"AWS": "*x"},
+               {"AWS": []}, {"Federated": ["*"]}, {"AWS": "arn:aws:iam::123456789012:root"}):
+        for pk in ("Principal", "NotPrincipal"):
+            docs.append(("valid", J({"Version": "2012-10-17", "Statement": [{pk: pr, "Effect": "Allow", "Action": "s3:GetObject", "Resource": "arn:aws:s3:::b/*"}]})))
     base = [d for _, d in docs]
     for _ in range(n_mut):
         d = rng.choice(base)
@@ -505,6 +511,20 @@ def run_policy(ctx):
                 seen_known.add("policy-one-star")
             else:
                 ctx.violation(dict(stage="policy_roundtrip", kind="One(s) does not survive encode/decode", s=x, impl=o))
+    # value-level round trip of principal maps built directly: every key / single value / list shape around the anonymous principal
+    pms = []
+    for key in ("AWS", "Service", "Federated", "aws", "CanonicalUser"):
+        for val in ("*", "*x", "arn:aws:iam::123456789012:root", ""):
+            pms += [[[key, "one", [val]]], [[key, "more", [val]]], [[key, "more", [val, val]]], [[key, "more", []]], [[key, "one", [val]], ["Other", "one", ["o"]]]]
+    pcases = [dict(op="principal_roundtrip", entries=[[k.encode().hex(), kind, [v.encode().hex() for v in vs]] for k, kind, vs in pm], **{"not": bool(i % 2)}) for i, pm in enumerate(pms)]
+    for pm, c_, r_ in zip(pms, pcases, vlib.run_impl("c20", pcases)):
+        ctx.cov["evaluations"] += 1
+        o = r_.get("out", "panic:" + r_.get("panic", ""))
+        if o != "same":
+            ctx.violation(dict(stage="policy_roundtrip", kind="a principal map does not survive encode/decode", principal=pm, not_principal=c_["not"], impl=o[:300]))
+        else:
+            ctx.cov["traces_validated_against_impl"] += 1
+            ctx.nontrivial(("principal-roundtrip", str(pm)))
     for k in sorted(seen_known):
         ctx.known(k, known[k])
     ctx.sample(dict(op="policy_decode", text=jtext(docs[3][1]), impl=impl[3], model=model[3]))
